@@ -53,6 +53,10 @@ type Prog struct {
 
 	callersOnce sync.Once
 	callers     map[*ssa.Function][]*ssa.CallCommon
+	callInstr   map[*ssa.CallCommon]ssa.CallInstruction
+
+	addrOnce  sync.Once
+	addrTaken map[*ssa.Function]bool
 
 	LoadTime time.Duration
 }
